@@ -5,7 +5,7 @@ property that still applies on top of it; the property's check must still report
 import sys, os, glob, json, subprocess, shutil
 HERE = os.path.dirname(os.path.dirname(os.path.abspath(__file__)))
 sys.path.insert(0, HERE)
-from concurrent.futures import ThreadPoolExecutor
+from concurrent.futures import ProcessPoolExecutor
 from rules import selftest, run as R
 
 
@@ -41,7 +41,7 @@ if __name__ == '__main__':
         for vp in vs:
             jobs.append((rp, vp, prop))
     stats = {}
-    with ThreadPoolExecutor(max_workers=8) as ex:
+    with ProcessPoolExecutor(max_workers=12) as ex:
         for rp, vp, prop, st, keys in ex.map(one, jobs):
             stats[st] = stats.get(st, 0) + 1
             if st in ('MISSED',):
